@@ -1,5 +1,6 @@
 import Sourmash.Lemmas.DatasetsMerge
 import Sourmash.Lemmas.IndexExtend
+import Sourmash.Lemmas.IndexFault
 import Sourmash.Lemmas.IndexReduce
 import Sourmash.Lemmas.IndexGrouping
 /-! Property C09 — index construction is independent of scheduling and of build increments.
@@ -203,6 +204,36 @@ theorem extend_eq_create {c : ManyCodec} (hc : c.Lawful) (C₁ C₂ : Coll) (hn 
   obtain ⟨db, h1, h2, h3⟩ := extend_is_reference hc C₁ C₂ hn old ext hold ch₁ ch₂ g₁ g₂ hg₁ hg₂
   have hcr := create_schedule_free hc (C₁ ++ C₂) hn ch₃ g₃ hg₃
   exact ⟨db, h1, fun h => by rw [h2 h, hcr.1 h], by rw [h3, hcr.2]⟩
+
+/-! ### T-fault_resume — an extension that aborts part-way, then the same extension again -/
+
+/-- T-fault_resume.  The index of `C₁` is extended to `C₁ ++ C₂` by a run that ABORTS (the signatures of
+some datasets cannot be loaded; `abortedBuild`): only the tasks of the datasets `done` ran — ANY subset of
+the new datasets, so the processed set it leaves may have HOLES (a later dataset indexed and marked, an
+earlier one not) — under any schedule and grouping, and the manifest was not written.  Then the index is
+reopened and extended again with everything readable, under any schedule and grouping: `update` is
+accepted and the result has the HASHES and PROCESSED of the sequential reference build of `C₁ ++ C₂` —
+the datasets in the holes are indexed, the ones that were done are not indexed twice. -/
+theorem fault_resume {c : ManyCodec} (hc : c.Lawful) (C₁ C₂ : Coll) (hn : (C₁ ++ C₂).length ≤ 2 ^ 32)
+    {ρ : Type} [BEq ρ] [LawfulBEq ρ] (old ext : List ρ) (hold : old.length = C₁.length)
+    (done : List Nat) (hdone : ∀ d ∈ done, C₁.length ≤ d ∧ d < (C₁ ++ C₂).length)
+    (ch₁ chF ch₂ : List Nat) (g₁ gF g₂ : Grouping) (hg₁ : GroupingOK g₁) (hgF : GroupingOK gF) (hg₂ : GroupingOK g₂) :
+    ∃ db, updateDb c (abortedBuild c (createDb c C₁ ch₁ g₁) (C₁ ++ C₂) done chF gF) old (old ++ ext)
+        (C₁ ++ C₂) ch₂ g₂ = some db ∧
+      (∀ h, lookupIds c (db.hashes h) = refIds (C₁ ++ C₂) h) ∧
+      lookupIds c db.processed = List.range (C₁ ++ C₂).length :=
+  update_after_aborted hc C₁ C₂ hn old ext hold done hdone ch₁ ch₂ g₁ gF g₂ hg₁ hgF hg₂ _
+    (runSchedule_interleaving chF _)
+
+/-- non-vacuity: one old dataset, three new ones; the aborted run indexed only the LAST one (processed =
+{0, 3}: datasets 1 and 2 are a hole); the second run fills the hole -/
+example :
+    let dbF := abortedBuild listCodec (createDb listCodec [[5, 7]] [0] (chunkGrouping 1 0 false))
+      [[5, 7], [7], [5], [7, 9]] [3] [0, 0] (chunkGrouping 2 2 true)
+    lookupIds listCodec dbF.processed = [0, 3] ∧
+    (updateDb listCodec dbF [10] [10, 11, 12, 13] [[5, 7], [7], [5], [7, 9]] [1, 0, 1] (chunkGrouping 2 2 true)).map
+      (fun db => (lookupIds listCodec (db.hashes 5), lookupIds listCodec (db.hashes 7), lookupIds listCodec db.processed))
+    = some ([0, 2], [0, 1, 3], [0, 1, 2, 3]) := by decide
 
 /-! ### T-superset — an extension whose leading records differ is rejected -/
 
